@@ -183,6 +183,19 @@ def stage_parser(ctx: Ctx) -> Func:
                 if len(cand) == 1:
                     c["stage_parser"] = cand[0]
                     return cand[0]
+    # not handed the option by name (a wrong variable at the call site is what a rule wants to report): the function of the API module that the
+    # holder of the option calls and that answers a list of processing stages (by its return annotation)
+    for f in [g for g in prog.funcs.values() if g.module is api]:
+        if "dds_stages" not in f.params:
+            continue
+        for n in f.own_nodes():
+            if isinstance(n, ast.Call):
+                fs, _ = prog.callees(f, n, ctx._types)
+                for g in fs:
+                    if g.module.name.startswith("dds") and g is not f and "dds_stages" not in g.params[1:] and g.node.returns is not None \
+                            and "ProcessingStage" in unparse(g.node.returns, 200) and len(g.positional_params()) == 1:
+                        c["stage_parser"] = g
+                        return g
     raise AnchorError("role stage-list-parser (the function that receives the dds_stages option) not found")
 
 
